@@ -17,7 +17,9 @@ CHECKS = {
     "C01": dict(engine=E1, ref="5/C01",
                 text="Every configuration in the stated finite product (all 36 l-pairs x type pairs x geometry "
                      "classes x contraction shape patterns, single shells, 3- and 4-shell bases for all type "
-                     "patterns) is executed on the real overlap code and compared element-wise with an "
+                     "patterns; nearly coincident, far-from-origin and symmetric-layout centre classes; coefficient scales "
+                     "1e-6..1e5; shells on shared array objects and the same shell listed twice) is executed on the real "
+                     "overlap code and compared element-wise with an "
                      "independent closed-form reference at the property's own 1e-8 absolute tolerance; bounded "
                      "exhaustive exploration is the right level because the property is a forall over input "
                      "shapes whose defects live in index bookkeeping per (l, K, M, type) class.",
@@ -43,7 +45,7 @@ CHECKS = {
     "C03": dict(engine=E1, ref="5/C03",
                 text="All 36 l-pairs (both branches of the internal a/b swap) x types x geometry x shapes, observed "
                      "with charge sets covering 7 position classes (on a centre, mid-bond, on an axis, near, far, "
-                     "1e-7 off a centre; Boys arguments 0..2e9 recorded) and, for a sub-family, all 119 subsets of "
+                     "1e-7 off a centre; Boys arguments 0..2e9 recorded; every charge count 1..5) and, for a sub-family, all 119 subsets of "
                      "1..5 classes; each per-charge slice compared with an independent McMurchie-Davidson "
                      "reference at 1e-8*sqrt(V_aa V_bb); the nuclear-attraction matrix compared with the sum. Long-range "
                      "tail-ladder geometries, Boys-argument ladder charges, atom-index labels and argument "
@@ -55,19 +57,24 @@ CHECKS = {
                      "exponent-placement patterns x contraction patterns, plus a fixed list of 40 ill-conditioned "
                      "core-s/diffuse-d,f quartets in five placements, is executed at block level and compared "
                      "element-wise with an independent McMurchie-Davidson reference at 1e-6 of the Schwarz scale; "
-                     "whole-basis calls (2-4 shells, all type patterns) in both notations and transformed.",
+                     "all 6 orders of a 3-primitive shell in each quartet position, nearly coincident centres far from "
+                     "the origin, symmetric (sum-zero) layouts, shells on shared arrays; "
+                     "whole-basis calls (2-4 shells, all type patterns) in both notations, transformed (generic and "
+                     "0/1-valued) and with a shell object listed twice.",
                 technique="exhaustive enumeration of shell quartets and configurations against a reference model"),
     "C14": dict(engine=E1, ref="5/C14",
                 text="Product of bases x type patterns x density classes x nuclei sets (both signs, 0.1..100) x "
                      "transforms (none/orthogonal/general/rectangular), each observed at EVERY threshold bracketing "
-                     "each point-nucleus distance (0.99d, 1.01d), at 0 and beyond the largest, with points on a "
+                     "each point-nucleus distance (0.99d, 1.01d; exactly d and its neighbouring floats on dyadic geometries), at 0 "
+                     "and beyond the largest, for 1, 2, 3, 4, 27 and 30 points, with points on a "
                      "nucleus included; compared with nuclear-minus-electronic potential from the independent "
                      "McMurchie-Davidson reference. Enumeration of all bracketing thresholds is what decides the "
                      "'exactly when the distance is below the threshold' clause.",
                 technique="exhaustive enumeration of configurations and critical thresholds against a reference model"),
     "C05": dict(engine=E1, ref="5/C05",
                 text="Single shells l 0..6 x shapes x types and 2-4-shell bases x all type patterns x transforms are "
-                     "evaluated at a point set covering centre / plane / axis / generic / far classes for ALL 125 "
+                     "evaluated at a point set covering centre / plane / axis / generic / far classes (and every point count "
+                     "1..7, 50) for ALL 125 "
                      "order triples with both back-ends and an unknown back-end; compared with exact polynomial "
                      "differentiation at 1e-9 of the condition scale; 'direct' must equal 'general' for orders <= 2 "
                      "and must raise above; complete enumeration of orders x back-ends is what decides the "
@@ -77,13 +84,15 @@ CHECKS = {
                 text="Bases (1-4 shells, l 0..4, all type patterns) x five density-matrix classes x three "
                      "transformation classes, each observed through every density routine with both back-ends, all "
                      "derivative-order triples of the tier, five alpha values, and thresholds bracketing the most "
-                     "negative value (x0.5, x0.99, x1.01, x2) - the enumeration of bracketing thresholds decides "
+                     "negative value (x0.5, x0.99, x1.01, x2, exactly the value the library reports and the float below it, 0 for "
+                     "exactly non-negative fields), every point count 1..6, a matrix symmetric only to 4e-7 - the "
+                     "enumeration of bracketing thresholds decides "
                      "the clip-or-raise clause; oracle is a term algebra with mechanical differentiation on "
                      "independent derivative tables.",
                 technique="exhaustive enumeration of configurations, orders and critical thresholds against a reference model"),
     "C15": dict(engine=E1, ref="5/C15",
                 text="Bases x type patterns x density classes x transforms x all 18 (alpha, beta) combinations "
-                     "including every special-cased value; sigma compared with its documented definition, the force "
+                     "including every special-cased value and values a few 1e-6 away from each; sigma compared with its documented definition, the force "
                      "with minus the divergence of that definition and the Hessian with the Jacobian of that force, "
                      "both derived by a mechanical product-rule operator on independent derivative tables - the "
                      "differential relations between the three quantities are decided, not a transcription.",
@@ -98,14 +107,16 @@ CHECKS = {
     "C20": dict(engine=E1, ref="5/C20",
                 text="Bases of 2-5 shells x type patterns placed so that consecutive centre distances bracket "
                      "(x0.99 / x1.01) the documented cutoff of that pair at every reference tolerance, plus 0 and 30 "
-                     "bohr; on each geometry all tolerances incl. None, with and without transformation; block "
+                     "bohr; on each geometry all tolerances incl. None, with and without transformation (entries up to 1, 40, "
+                     "1e-3); block "
                      "kept/removed pattern, exact zeros, nesting in the tolerance and the s-type bound are checked "
                      "against a 34-digit cutoff model.",
                 technique="exhaustive enumeration of configurations and critical distances against a reference model"),
     "C16": dict(engine=E1, ref="5/C16",
                 text="Every 1- and 2-shell basis over l 0..4 x type x segment patterns and 3-shell ladder bases x all 8 "
                      "type patterns: the library's pointwise evaluations (values, gradients, density, positive-definite "
-                     "kinetic density) are integrated on a 91^3 uniform grid and compared with its own analytic overlap, "
+                     "kinetic density; the last two also for transformed orbitals with a non-diagonal density matrix) are "
+                     "integrated on a 91^3 uniform grid and compared with its own analytic overlap, "
                      "moment, kinetic matrices and traces - a differential oracle between the two halves of the library "
                      "with no hand-written expected values.",
                 note="trusted base: geometric convergence of the trapezoid rule for exponents 0.3..3 inside [-9,9]^3 "
@@ -123,7 +134,8 @@ CHECKS = {
                      "symmetric, Hermitian, asymmetric, eight-fold symmetric labels, labelled norm_cont) for every basis "
                      "shape in the bound, every type pattern and every entry point, against an explicit loop model - "
                      "any misplaced block, swapped segment/component axis or transposed copy changes some label. Part B: "
-                     "breadth-first search over (type pattern lattice, attached transformation, component convention) "
+                     "breadth-first search over (type pattern lattice, attached transformation - square / wide / tall / 0-1-valued / "
+                     "large entries -, component convention) "
                      "with the law X(new) = L X(old) L^T checked on every edge for every public quantity.",
                 note="trusted base: reference harmonics (mc/ref/shells.py, self-tested), numpy tensordot; Part A uses the "
                      "library's own generate_transformation (checked separately by C10)",
@@ -157,16 +169,17 @@ CHECKS = {
                      "are all 48 signed axis permutations and three generic proper/improper rotations combined with "
                      "three translation classes, composed to depth 2; on every edge every public quantity must obey its "
                      "transformation law (representation matrices on basis indices, vector / tensor / axial-vector "
-                     "rules, d x p shift, invariance of scalars); translations by 1e3 and 1e4 bohr on a moderate-exponent "
+                     "rules incl. the rank-3 tensor of third derivatives through the specialised back-end, d x p shift, "
+                     "invariance of scalars); translations by 1e3 and 1e4 bohr on a moderate-exponent "
                      "seed with a conditioning-limited tolerance. One recorded finding (F2, ERI with wide-range high-l "
                      "contractions) is printed as KNOWN-FINDING.",
                 note="trusted base: representation matrices from independent polynomial substitution and the reference "
                      "harmonics (mc/ref/rep.py); differential oracle between two runs of the implementation",
                 technique="explicit-state BFS over rigid motions (complete finite group) with covariance-law oracle"),
     "C19": dict(engine=E3, ref="5/C19",
-                text="Breadth-first search over call sequences on shared objects with an alphabet of about 65 operations "
-                     "(every public function with valid arguments, one invalid variant each, parameter updates, "
-                     "re-normalisation), run until no new state appears, so the invariants (arguments bit-identical, "
+                text="Breadth-first search over call sequences on shared objects with an alphabet of about 85 operations "
+                     "(every public function with valid arguments, one or more invalid variants each, parameter updates, "
+                     "rejected updates and imports, re-normalisation; constructor arguments stay in the state), run until no new state appears, so the invariants (arguments bit-identical, "
                      "numpy error state / warnings filters / module globals restored on return and raise, repeated and "
                      "path-independent results, unit normalisation after renormalisation) are established for call "
                      "sequences of every length over that alphabet, from several initial error states; every reached "
